@@ -15,21 +15,55 @@ from harness import tlc, util
 INVS = ["TypeOK", "Underlying", "Extremes", "BivMeaning"]
 
 
+# the ways a collection of adjacency requirements / shaded cells can be handed to a constructor
+ARG_FORMS = [
+    ("sorted-list", lambda xs: sorted(xs)),
+    ("reversed-tuple", lambda xs: tuple(sorted(xs, reverse=True))),
+    ("iterator", lambda xs: iter(sorted(xs))),
+    ("generator", lambda xs: (x for x in sorted(xs, reverse=True))),
+    ("set", lambda xs: set(xs)),
+    ("frozenset", lambda xs: frozenset(xs)),
+    ("repeated", lambda xs: sorted(xs) + sorted(xs, reverse=True)[:2]),
+    ("rotated-repeated-iterator", lambda xs: iter((sorted(xs)[1:] + sorted(xs)[:1]) * 2)),
+    ("dict-keys", lambda xs: dict.fromkeys(sorted(xs, reverse=True)).keys()),
+]
+
+
 def builders(rec):
-    """All the ways the pattern of this state can be written down in Permuta."""
+    """All the ways the pattern of this state can be written down in Permuta.  The requirement lists of the
+    bivincular family are given in a container form that rotates with the state (every pattern meets every form,
+    since each pattern is a state with many permutations)."""
     p = Perm(rec["p"])
     R = [tuple(c) for c in rec["R"]]
-    out = [("MeshPatt", lambda: MeshPatt(p, R))]
+    sel = sum((i + 1) * v for i, v in enumerate(rec["q"])) + len(rec["q"])
+    cells = _Lazy(ARG_FORMS[(sel + len(R)) % len(ARG_FORMS)][1], R)
+    out = [("MeshPatt", lambda: MeshPatt(p, cells()))]
     if rec["biv"]:
-        X, Y = sorted(rec["X"]), sorted(rec["Y"])
-        out.append(("BivincularPatt", lambda: BivincularPatt(p, X, Y)))
+        fx = ARG_FORMS[sel % len(ARG_FORMS)][1]
+        fy = ARG_FORMS[(sel // len(ARG_FORMS) + sel) % len(ARG_FORMS)][1]
+        X, Y = _Lazy(fx, rec["X"]), _Lazy(fy, rec["Y"])
+        out.append(("BivincularPatt", lambda: BivincularPatt(p, X(), Y())))
         k = len(rec["p"])
         # a full grid has every column and row full; (X, {}) describes the shading only if rows add nothing
         if set(R) == {(x, y) for x in X for y in range(k + 1)}:
-            out.append(("VincularPatt", lambda: VincularPatt(p, X)))
+            out.append(("VincularPatt", lambda: VincularPatt(p, X())))
         if set(R) == {(x, y) for y in Y for x in range(k + 1)}:
-            out.append(("CovincularPatt", lambda: CovincularPatt(p, Y)))
+            out.append(("CovincularPatt", lambda: CovincularPatt(p, Y())))
     return out
+
+
+class _Lazy:
+    """A requirement collection that is presented afresh (possibly as a one-shot object) at every construction,
+    and as a plain sorted list when iterated by the harness itself."""
+
+    def __init__(self, form, xs):
+        self.form, self.xs = form, sorted(xs)
+
+    def __call__(self):
+        return self.form(self.xs)
+
+    def __iter__(self):
+        return iter(self.xs)
 
 
 def observe(M, Q):
@@ -59,6 +93,14 @@ def judge(ctx, rec):
             if obs[k] != exp[k]:
                 ctx.violation(dict(case, entry=k), "MeshOccurrencesExact" if k in ("occ", "dups") else "PredicatesAgree", exp[k], obs[k])
                 break
+        if name == "MeshPatt":
+            # one long-lived object per pattern, asked about every permutation of the universe in turn
+            L = _LONG.get(key[:2])
+            if L is None:
+                L = _LONG[key[:2]] = mk()
+            st, obs = util.call(lambda: (sorted(list(t) for t in L.occurrences_in(Q)), Q.contains(L), L.count_occurrences_in(Q)))
+            if st == "raise" or obs != (occ, n > 0, n):
+                ctx.violation(dict(case, entry="long-lived object"), "MeshOccurrencesExact", (occ, n > 0, n), obs)
         if name == "BivincularPatt":
             st, req = util.call(lambda: mk().get_adjacent_requirements())
             want = (sorted(rec["X"]), sorted(rec["Y"]))
@@ -69,6 +111,9 @@ def judge(ctx, rec):
                     sorted(y for y in range(k + 1) if all((x, y) in Rs for x in range(k + 1))))
             if st == "raise" or (list(req[0]), list(req[1])) != (want[0], want[1]):
                 ctx.violation(dict(case, entry="get_adjacent_requirements"), "AdjacencyRoundTrip", want, req)
+
+
+_LONG = {}
 
 
 def sample_meshes(rnd, count, lengths=(3, 4)):
@@ -135,8 +180,8 @@ def run(ctx):
         objs = [Perm(c) for c in cl] + [MeshPatt(Perm(p), R) for p, R in ms]
         rnd.shuffle(objs)
         jm = [{"p": list(p), "R": [list(c) for c in R]} for p, R in ms]
-        events.append({"op": "Mixed", "kind": "contains", "q": list(q), "cl": [list(c) for c in cl], "ms": jm, "res": Q.contains(*objs)})
-        events.append({"op": "Mixed", "kind": "avoids", "q": list(q), "cl": [list(c) for c in cl], "ms": jm, "res": Q.avoids(*objs)})
+        events.append({"op": "Mixed", "kind": "contains", "q": list(q), "cl": [list(c) for c in cl], "ms": jm, "bs": [], "res": Q.contains(*objs)})
+        events.append({"op": "Mixed", "kind": "avoids", "q": list(q), "cl": [list(c) for c in cl], "ms": jm, "bs": [], "res": Q.avoids(*objs)})
         for p, R in ms[:1]:
             events.append({"op": "Occ", "p": list(p), "R": [list(c) for c in R], "q": list(q),
                            "res": sorted(list(t) for t in MeshPatt(Perm(p), R).occurrences_in(Q))})
@@ -154,9 +199,9 @@ def run(ctx):
         rnd.shuffle(fam)
         objs = [o for _, o in fam]
         jm = [{"p": list(p), "R": [list(c) for c in R]} for R in (R1, R2)]
-        events.append({"op": "Mixed", "kind": "contains", "q": list(q), "cl": [list(p)], "ms": jm, "res": Q.contains(*objs)})
-        events.append({"op": "Mixed", "kind": "avoids", "q": list(q), "cl": [list(p)], "ms": jm, "res": Q.avoids(*objs)})
-        events.append({"op": "Mixed", "kind": "avoids", "q": list(q), "cl": [list(p)], "ms": jm, "res": Q.avoids_set(iter(objs))})
+        events.append({"op": "Mixed", "kind": "contains", "q": list(q), "cl": [list(p)], "ms": jm, "bs": [], "res": Q.contains(*objs)})
+        events.append({"op": "Mixed", "kind": "avoids", "q": list(q), "cl": [list(p)], "ms": jm, "bs": [], "res": Q.avoids(*objs)})
+        events.append({"op": "Mixed", "kind": "avoids", "q": list(q), "cl": [list(p)], "ms": jm, "bs": [], "res": Q.avoids_set(iter(objs))})
     # interleaved lazy iterators, some sharing one pattern object
     nit = 40 if quick else 300
     idc = 0
@@ -187,11 +232,16 @@ def run(ctx):
             except Exception as e:  # pylint: disable=broad-except
                 ctx.violation({"kind": "iterator", "id": i}, "NoException", "a tuple or StopIteration", type(e).__name__)
                 live.pop(j)
+    nbefore = len(events)
+    events.extend(hardening_events(ctx, quick, idc))
+    ctx.note("hardening_events", len(events) - nbefore)
     v = util.validate_trace(ctx, "Trace_C03", events, ntraces=nmix + nit)
     ctx.case(n=len(events))
     ctx.sample({"machine": "Trace_C03", "events": events[:3]})
     for b in v["verdict"]:
         ev = events[b["i"] - 1]
+        if b["clause"].startswith("SPEC-"):
+            raise tlc.MachineryFailure("C03: the two statements of the bivincular meaning disagree on %s" % ev)
         ctx.violation({"kind": "trace-event", "index": b["i"], "event": ev, "context": events[max(0, b["i"] - 6):b["i"] - 1] if ev["op"] == "Step" else []},
                       b["clause"], "value of the definition (see clause)", ev.get("res"))
     repo_tests_traces(ctx)
@@ -199,6 +249,187 @@ def run(ctx):
                 "by definition; each is replayed through every constructor that can express the shading and every "
                 "containment entry point; non-trivial = shaded pattern whose shading matters or that has an occurrence; "
                 "plus recorded mixed-list predicates and interleaved lazy iterators validated by Trace_C03")
+
+
+# ---- probes added in the hardening round ------------------------------------------------------------------
+def _std(seq):
+    order = sorted(range(len(seq)), key=lambda i: seq[i])
+    out = [0] * len(seq)
+    for r, i in enumerate(order):
+        out[i] = r
+    return tuple(out)
+
+
+def _jm(p, R):
+    return {"p": list(p), "R": [list(c) for c in sorted(R)]}
+
+
+def biv_with_occurrence(rnd, q, k):
+    """A bivincular pattern of length k read off a random choice of k positions of q: the requirements are mostly
+    chosen among those that this choice satisfies (so the pattern tends to occur, anchored or not), sometimes one
+    more.  Only the *input* is constructed here; what occurs is decided by the specification."""
+    n = len(q)
+    if k > n:
+        return util.rand_perm(rnd, k), [x for x in range(k + 1) if rnd.random() < 0.3], [y for y in range(k + 1) if rnd.random() < 0.3]
+    # positions: runs of adjacent positions, biased to touch the first / last position
+    start = rnd.choice([0, 0, n - k, rnd.randint(0, n - k)])
+    pos = sorted(rnd.sample(range(n), k)) if rnd.random() < 0.5 else list(range(start, start + k))
+    if rnd.random() < 0.3 and k:
+        pos[0] = 0
+    if rnd.random() < 0.3 and k:
+        pos[-1] = n - 1
+    pos = sorted(set(pos))
+    k = len(pos)
+    vals = sorted(q[i] for i in pos)
+    p = _std([q[i] for i in pos])
+    okx = [x for x in range(k + 1) if (pos[x - 1] if x else -1) + 1 == (pos[x] if x < k else n)]
+    oky = [y for y in range(k + 1) if (vals[y - 1] if y else -1) + 1 == (vals[y] if y < k else n)]
+    X = [x for x in okx if rnd.random() < 0.6]
+    Y = [y for y in oky if rnd.random() < 0.5]
+    if rnd.random() < 0.15:
+        X = sorted(set(X) | {rnd.randint(0, k)})
+    if rnd.random() < 0.15:
+        Y = sorted(set(Y) | {rnd.randint(0, k)})
+    return p, X, Y
+
+
+def build_biv(rnd, p, X, Y):
+    """One of the constructors that can express (X, Y), the requirements in a random container form."""
+    fx, fy = rnd.choice(ARG_FORMS)[1], rnd.choice(ARG_FORMS)[1]
+    P = Perm(p)
+    if not Y and rnd.random() < 0.6:
+        return VincularPatt(P, fx(X))
+    if not X and rnd.random() < 0.6:
+        return CovincularPatt(P, fy(Y))
+    return BivincularPatt(P, fx(X), fy(Y))
+
+
+def mesh_few_cells(rnd, q, k):
+    """A mesh pattern of length k on a subsequence of q with few shaded cells, biased to the border of the grid."""
+    n = len(q)
+    pos = sorted(rnd.sample(range(n), k)) if k <= n else []
+    p = _std([q[i] for i in pos]) if k <= n else util.rand_perm(rnd, k)
+    border = [(x, y) for x in range(k + 1) for y in range(k + 1) if x in (0, k) or y in (0, k)]
+    inner = [(x, y) for x in range(k + 1) for y in range(k + 1)]
+    style = rnd.random()
+    if style < 0.08:
+        R = []
+    elif style < 0.16:
+        R = inner
+    else:
+        R = {rnd.choice(border if rnd.random() < 0.6 else inner) for _ in range(rnd.randint(1, 4))}
+    return p, sorted(R)
+
+
+def hardening_events(ctx, quick, idc):
+    rnd = util.rng(ctx, 303)
+    ev = []
+    scale = 1 if quick else 8
+    # -- (a) the bivincular family on longer permutations, anchored at 0 / k, requirements in every container form
+    for _ in range(140 * scale):
+        q = util.rand_perm(rnd, rnd.choice([5, 6, 7, 7, 8, 8]))
+        p, X, Y = biv_with_occurrence(rnd, q, rnd.choice([1, 2, 2, 3, 3, 4]))
+        Q = Perm(q)
+        B = build_biv(rnd, p, X, Y)
+        ev.append({"op": "Biv", "p": list(p), "X": X, "Y": Y, "q": list(q), "res": sorted(list(t) for t in B.occurrences_in(Q)),
+                   "ctor": type(B).__name__})
+        jb = [{"p": list(p), "X": X, "Y": Y}]
+        ev.append({"op": "Mixed", "kind": "contains", "q": list(q), "cl": [], "ms": [], "bs": jb, "res": Q.contains(B)})
+        B2 = build_biv(rnd, p, X, Y)                    # an equal pattern written another way, with the classical one
+        objs = [B2, Perm(p), B]
+        rnd.shuffle(objs)
+        ev.append({"op": "Mixed", "kind": "contains", "q": list(q), "cl": [list(p)], "ms": [], "bs": jb + jb, "res": Q.contains(*objs)})
+        ev.append({"op": "Mixed", "kind": "avoids", "q": list(q), "cl": [], "ms": [], "bs": jb, "res": Q.avoids_set(x for x in (B, B2))})
+        ev.append({"op": "Biv", "p": list(p), "X": X, "Y": Y, "q": list(q), "res": sorted(list(t) for t in B.occurrences_in(Q)),
+                   "ctor": type(B).__name__ + " (second listing)"})
+    # -- (b) mesh patterns of length 4-5 with few shaded cells on permutations of length 7-8; shading in every form
+    for _ in range(110 * scale):
+        q = util.rand_perm(rnd, rnd.choice([7, 8]))
+        p, R = mesh_few_cells(rnd, q, rnd.choice([4, 4, 5]))
+        Q = Perm(q)
+        M = MeshPatt(Perm(p), rnd.choice(ARG_FORMS)[1](R))
+        ev.append(dict(_jm(p, R), op="Occ", q=list(q), res=sorted(list(t) for t in M.occurrences_in(Q))))
+        ev.append({"op": "Mixed", "kind": "contains", "q": list(q), "cl": [], "ms": [_jm(p, R)], "bs": [], "res": M in Q})
+        # the same object again after its symmetric images were taken and used (they share the underlying pattern's data)
+        imgs = [M.reverse(), M.complement(), M.inverse(), M.rotate()]
+        for I in imgs[:2]:
+            I.count_occurrences_in(Q)
+        q2 = util.rand_perm(rnd, rnd.choice([6, 7, 8]))
+        ev.append(dict(_jm(p, R), op="Occ", q=list(q2), res=sorted(list(t) for t in M.occurrences_in(Perm(q2)))))
+        ev.append(dict(_jm(p, R), op="Occ", q=list(q), res=sorted(list(t) for t in M.occurrences_in(Q))))
+    # -- (c) the empty pattern, with and without its single cell shaded, alone and inside lists
+    for _ in range(20 * scale):
+        q = util.rand_perm(rnd, rnd.choice([0, 0, 1, 2, 5, 8]))
+        Q = Perm(q)
+        for R in ([], [(0, 0)]):
+            M = MeshPatt(Perm(()), rnd.choice(ARG_FORMS)[1](R))
+            ev.append(dict(_jm((), R), op="Occ", q=list(q), res=sorted(list(t) for t in M.occurrences_in(Q))))
+            other, = sample_meshes(rnd, 1, lengths=(1, 2))
+            objs = [M, MeshPatt(Perm(other[0]), other[1]), Perm(())]
+            rnd.shuffle(objs)
+            for kind, fn in (("contains", lambda: Q.contains(*objs)), ("avoids", lambda: Q.avoids(*objs)),
+                             ("avoids", lambda: Q.avoids_set(iter(objs))), ("avoids", lambda: Q.avoids_set(set(objs)))):
+                ev.append({"op": "Mixed", "kind": kind, "q": list(q), "cl": [[]], "ms": [_jm((), R), _jm(*other)], "bs": [], "res": fn()})
+        for X, Y in (([0], []), ([], [0]), ([0], [0])):
+            B = build_biv(rnd, (), X, Y)
+            ev.append({"op": "Biv", "p": [], "X": X, "Y": Y, "q": list(q), "res": sorted(list(t) for t in B.occurrences_in(Q)), "ctor": type(B).__name__})
+    # -- (d) mixed lists in every container form, with repeated objects, on one long-lived permutation object
+    for _ in range(40 * scale):
+        q = util.rand_perm(rnd, rnd.randint(4, 8))
+        Q = Perm(q)
+        for _ in range(3):
+            ms = [mesh_few_cells(rnd, q, rnd.choice([1, 2, 3])) for _ in range(rnd.randint(0, 2))]
+            bs = [biv_with_occurrence(rnd, q, rnd.choice([1, 2, 3])) for _ in range(rnd.randint(0, 2))]
+            cl = [util.rand_perm(rnd, rnd.choice([1, 2, 3, 4])) for _ in range(rnd.randint(0, 1))]
+            objs = [MeshPatt(Perm(p), R) for p, R in ms] + [build_biv(rnd, *b) for b in bs] + [Perm(c) for c in cl]
+            if not objs:
+                continue
+            objs = objs + [rnd.choice(objs)]
+            rnd.shuffle(objs)
+            jms, jbs = [_jm(p, R) for p, R in ms], [{"p": list(p), "X": X, "Y": Y} for p, X, Y in bs]
+            base = {"op": "Mixed", "q": list(q), "cl": [list(c) for c in cl], "ms": jms, "bs": jbs}
+            ev.append(dict(base, kind="contains", res=Q.contains(*objs)))
+            ev.append(dict(base, kind="avoids", res=Q.avoids(*objs)))
+            for form in (lambda o: (x for x in o), set, tuple, lambda o: map(lambda x: x, o)):
+                ev.append(dict(base, kind="avoids", res=Q.avoids_set(form(objs))))
+            ev.append(dict(base, kind="contains", res=all(o in Q for o in objs)))
+            ev.append(dict(base, kind="contains", res=all(o.contained_in(Q) for o in objs)))
+            ev.append(dict(base, kind="avoids", res=all(o.avoided_by(Q) for o in objs)))
+    # -- (e) other questions to the same pattern object while lazy searches on it are suspended half way
+    for _ in range(40 * scale):
+        q0 = util.rand_perm(rnd, rnd.randint(5, 8))
+        if rnd.random() < 0.5:
+            p, R = mesh_few_cells(rnd, q0, rnd.choice([1, 2, 3]))
+            M = MeshPatt(Perm(p), R)
+        else:
+            p, X, Y = biv_with_occurrence(rnd, q0, rnd.choice([1, 2, 3]))
+            M = build_biv(rnd, p, X, Y)
+            R = sorted(M.shading)          # the cells are those of the object (the conversion itself is judged by Biv events)
+        live = []
+        for q in (q0, util.rand_perm(rnd, rnd.randint(len(p), 7))):
+            idc += 1
+            ev.append(dict(_jm(p, R), op="Open", id=idc, q=list(q)))
+            live.append((idc, M.occurrences_in(Perm(q))))
+        while live:
+            if rnd.random() < 0.6:
+                j = rnd.randrange(len(live))
+                i, it = live[j]
+                try:
+                    ev.append({"op": "Step", "id": i, "stop": False, "res": list(next(it))})
+                except StopIteration:
+                    ev.append({"op": "Step", "id": i, "stop": True, "res": []})
+                    live.pop(j)
+                except Exception as e:  # pylint: disable=broad-except
+                    ctx.violation({"kind": "iterator", "id": i}, "NoException", "a tuple or StopIteration", type(e).__name__)
+                    live.pop(j)
+                continue
+            q = util.rand_perm(rnd, rnd.randint(3, 7))
+            Q = Perm(q)
+            if rnd.random() < 0.5:
+                ev.append(dict(_jm(p, R), op="Occ", q=list(q), res=sorted(list(t) for t in M.occurrences_in(Q))))
+            else:
+                ev.append({"op": "Mixed", "kind": "contains", "q": list(q), "cl": [list(p)], "ms": [_jm(p, R)], "bs": [], "res": Q.contains(M, Perm(p), M)})
+    return ev
 
 
 def repo_tests_traces(ctx):
@@ -248,10 +479,22 @@ def replay(ctx, path):
         Q = Perm(case["q"])
         ms = [{"p": case["p"], "R": case["R"]}]
         events = [{"op": "Occ", "p": case["p"], "R": case["R"], "q": case["q"], "res": sorted(list(t) for t in M.occurrences_in(Q))},
-                  {"op": "Mixed", "kind": "contains", "q": case["q"], "cl": [], "ms": ms, "res": Q.contains(M)},
-                  {"op": "Mixed", "kind": "avoids", "q": case["q"], "cl": [], "ms": ms, "res": Q.avoids(M)}]
+                  {"op": "Mixed", "kind": "contains", "q": case["q"], "cl": [], "ms": ms, "bs": [], "res": Q.contains(M)},
+                  {"op": "Mixed", "kind": "avoids", "q": case["q"], "cl": [], "ms": ms, "bs": [], "res": Q.avoids(M)}]
+    elif case["kind"] == "trace-event" and case["event"]["op"] in ("Occ", "Biv", "Mixed"):
+        ev = dict(case["event"])                        # the recorded call made again (container forms not reproduced)
+        Q = Perm(ev["q"])
+        if ev["op"] == "Occ":
+            ev["res"] = sorted(list(t) for t in MeshPatt(Perm(ev["p"]), [tuple(c) for c in ev["R"]]).occurrences_in(Q))
+        elif ev["op"] == "Biv":
+            ev["res"] = sorted(list(t) for t in BivincularPatt(Perm(ev["p"]), iter(ev["X"]), iter(ev["Y"])).occurrences_in(Q))
+        else:
+            objs = ([Perm(c) for c in ev["cl"]] + [MeshPatt(Perm(m["p"]), [tuple(c) for c in m["R"]]) for m in ev["ms"]]
+                    + [BivincularPatt(Perm(b["p"]), b["X"], b["Y"]) for b in ev["bs"]])
+            ev["res"] = Q.contains(*objs) if ev["kind"] == "contains" else Q.avoids_set(iter(objs))
+        events = [ev]
     else:
-        raise tlc.MachineryFailure("trace events are replayed by re-running the check with the same VERIF_SEED")
+        raise tlc.MachineryFailure("iterator events are replayed by re-running the check with the same VERIF_SEED")
     v = util.validate_trace(ctx, "Trace_C03", events)
     if v["verdict"]:
         print("VIOLATION property=C03 replay=%s" % path)
